@@ -32,7 +32,7 @@ CLAIMS = {
             "§3.13, §3.6, §4 C11"),
     "C12": ("validation-discipline analysis (size facts vs. element accesses, dominance of input gates)",
             "A2: every element access to an input-derived member vector on the query path is covered by a release-active size "
-            "fact (schema minItems / WBAssertThrow / resize); A1: relied-upon length checks are not debug-only; A3/A4: no "
+            "fact (schema minItems / WBAssertThrow / resize), A2.store: indexed stores into member vectors inside counting loops are covered by the size given in the same function; A1: relied-upon length checks are not debug-only; A3/A4: no "
             "constant-true WBAssertThrow, string dispatch ends in a release-active rejection and agrees with the schema; G3: JSON "
             "parse, is-object and schema gates dominate every normal return of Parameters::initialize, version check first; A5; SCHEMA "
             "(required/closed/keys/writers: no schema path stored twice, points declare minItems=maxItems=dim); JSON.order (no member "
@@ -77,7 +77,7 @@ CLAIMS.update({
     "C18": ("symbolic layout agreement + provenance + parallel-loop discipline",
             "LAYOUT L4 for gwb-grid (output offsets -> data_set slots, dataSetInfo, filter_vtu_mesh literals), same-index node "
             "provenance, PAR on the parallel callables and the pool, structure of the mesh filter (both per-cell loops cover all vertices), "
-            "base64 length of appended blocks = 4*ceil(n/3) (proof over residues), Cartesian grid: node positions and VTK cell "
+            "base64 length of appended blocks = 4*ceil(n/3) (proof over residues), zlib block structure ceil(n/b) blocks / last block 1..b (residues), the `no feature` guard of the tag scan can fire, Cartesian grid: node positions and VTK cell "
             "connectivity as closed forms of the loop indices; sphere grid: bilinear block patch (partition of unity, corners, edges) and "
             "projection R*p/|p|; chunk grid: (lon, lat, r) lattice, conversion to Cartesian coordinates and connectivity; annulus grid: node circles and "
             "quads with the wrap-around column. The uncompressed numbering and the merging of sphere blocks are decided only for their depth field",
@@ -106,7 +106,7 @@ CLAIMS.update({
     "C05": ("sibling cross-check in normal form + model-level dataflow rules + computer-algebra comparison of simple closed forms",
             "SIB over all replicated model classes with a frozen table of explained differences, R1, G4/G2 (inclusive two-sided range "
             "guard), N1 (sentinel overrides: tested variable = replaced variable, world's constant / adiabat, no dead override), closed "
-            "forms of uniform/adiabatic/linear, cooling models, Gaussian plume, smooth composition blend; local depth bounds used once "
+            "forms of uniform/adiabatic/linear, cooling models, Gaussian plume (incl. shorter-arc angle interpolation and ellipse equation), smooth composition blend; local depth bounds used once "
             "defined (DEP.surfaces.local); distance and velocity of the cooling age from one ridge candidate; one source per physical parameter "
             "inside a model (PARAM.source); Chapman geotherm T_top + (q/k) dz - (A/2k) dz^2 from the clipped top. Mass-conserving and tian2019 "
             "recipes are not decided",
@@ -148,7 +148,7 @@ CLAIMS.update({
             "BezierCurve::operator() and the reported point is that cubic at the reported parameter; the acos clamp of the great-circle "
             "distance is the identity on [-1,1] and the value under it is the cosine of the central angle (callee evaluated with its arguments); kd-tree search structure (near child unconditional, far child pruned on the split-axis "
             "difference, same mid in build and search, both search functions, Euclidean distance of both coordinates); every section of the trench "
-            "curve is examined by the closest-point search; Cartesian<->spherical round trip as an identity; closed forms "
+            "curve is examined by the closest-point search; Cartesian<->spherical round trip as an identity and on every path (all octants, both polar caps); closed forms "
             "of the Point distance kernels; closed, twin-symmetric on-segment test of the polygon routine; the Bezier result record is "
             "stored as a whole. Nearest-ness, polygon exactness beyond the boundary test, Newton convergence are not decided",
             "§3.6, §3.13, §4 C19"),
